@@ -138,6 +138,15 @@ def once(R):
                     good = False
             elif isinstance(val, (ast.BoolOp, ast.Compare)):
                 good = False
+    # every keyword argument is a key of the JSON object: the signature has no named parameter (besides the object) that
+    # would take one of them away
+    a_ = fj.node.args
+    named = [x.arg for x in a_.posonlyargs + a_.args + a_.kwonlyargs if x.arg not in ('self', objp)]
+    R.ob('C03.once', 'send_json passes every keyword into the JSON object', not named and a_.kwarg is not None,
+         'send_json has the named parameter(s) %s next to **%s: send_json(%s=...) in the documented keyword form no longer '
+         'sends that key - the frame does not carry the caller\'s payload' % (named, a_.kwarg.arg if a_.kwarg else 'kwargs',
+                                                                              named[0] if named else ''),
+         func=q, node=fj.node, construct='send_json signature')
     R.ob('C03.once', 'send_json encodes exactly the object it was given', sentinel_ok and good and via_obj,
          'send_json(%s=%s) encodes %s: a falsy but legal JSON value ([], 0, "", false, null) is replaced by the keyword '
          'arguments, i.e. {} is sent' % (objp, U(dflt), U(arg)), func=q, node=dc, construct='send_json object selection')
